@@ -8,6 +8,7 @@ flavour.
 import abc
 from typing import Dict, List, Optional, Set, Tuple, Union
 
+from netqasm.lang import encoding
 from netqasm.lang.instr import DebugInstruction, NetQASMInstruction, core, nv, vanilla
 from netqasm.lang.instr.flavour import REIDSFlavour
 from netqasm.lang.operand import Immediate, Register, RegisterName
@@ -665,6 +666,9 @@ def get_hardware_num_denom(
         raise ValueError(
             f"Instruction {instr} not supported: angle_denom is {instr.angle_denom}."
         )
+
+    # The numerator given by the user still has to be one that an immediate can hold
+    encoding.assert_fits(instr.angle_num.value, encoding.IMMEDIATE)
 
     denom_diff = 4 - instr.angle_denom.value
     # A rotation by angle_num * pi / 16 has period 32 in angle_num: leave out
